@@ -304,8 +304,9 @@ Renumber(a) == Ren(a, 0).a
 WellNumbered(a) == Renumber(a) = a /\ \A k \in BrefsIn(a) : k >= 1 /\ k <= NCaps(a)
 
 \* ---- Pattern grammar: text -> AST (acceptor) -------------------------------------------------------
-\* mode "strict": the grammar of 22.2.1 (non-unicode, no named groups);  mode "annexB": B.1.2 additions.
+\* mode "strict": the grammar of 22.2.1 (non-unicode, no named groups);  option "B": the B.1.2 additions.
 \* A pattern the two modes disagree on is implementation-defined territory ("outside", not judged).
+IsB(md) == "B" \in md
 HexVal(c) == IF c >= 48 /\ c <= 57 THEN c - 48 ELSE IF c >= 97 /\ c <= 102 THEN c - 87 ELSE IF c >= 65 /\ c <= 70 THEN c - 55 ELSE -1
 IsIdContinueAscii(c) == IsWordUnit(c)            \* UnicodeIDContinue restricted to ASCII ($ is not ID_Continue)
 IsAsciiLetter(c) == (c >= 65 /\ c <= 90) \/ (c >= 97 /\ c <= 122)
@@ -333,7 +334,7 @@ Brace(p, i) ==
 
 \* CharacterEscape after the backslash, at i (shared by atoms and classes) -> [ok, c, i]
 EscFail == [ok |-> FALSE, c |-> 0, i |-> 0]
-CharEscape(p, i, annexB, inClass) ==
+CharEscape(p, i, md, inClass) ==
   LET c == At(p, i) IN
   IF c = -1 THEN EscFail
   ELSE IF c = 110 THEN [ok |-> TRUE, c |-> 10, i |-> i + 1]
@@ -348,11 +349,11 @@ CharEscape(p, i, annexB, inClass) ==
   ELSE IF c = 117 /\ \A k \in 1..4 : HexVal(At(p, i + k)) >= 0
        THEN [ok |-> TRUE, c |-> 4096 * HexVal(At(p, i + 1)) + 256 * HexVal(At(p, i + 2)) + 16 * HexVal(At(p, i + 3)) + HexVal(At(p, i + 4)), i |-> i + 5]
   ELSE IF ~IsIdContinueAscii(c) THEN [ok |-> TRUE, c |-> c, i |-> i + 1]         \* IdentityEscape
-  ELSE IF annexB /\ (c # 99 \/ inClass) THEN [ok |-> TRUE, c |-> c, i |-> i + 1]   \* B.1.2: any character but c (value not judged)
+  ELSE IF IsB(md) /\ (c # 99 \/ inClass) THEN [ok |-> TRUE, c |-> c, i |-> i + 1]   \* B.1.2: any character but c (value not judged)
   ELSE EscFail
 
 \* ClassAtom at i -> [ok, it (item), sh (is a class escape like \d), i]
-ClassAtom(p, i, annexB) ==
+ClassAtom(p, i, md) ==
   LET c == At(p, i)  bad == [ok |-> FALSE, it |-> Rng(0, 0), sh |-> FALSE, i |-> 0] IN
   IF c = -1 \/ c = 93 THEN bad
   ELSE IF c # 92 THEN [ok |-> TRUE, it |-> Rng(c, c), sh |-> FALSE, i |-> i + 1]
@@ -360,30 +361,30 @@ ClassAtom(p, i, annexB) ==
        IF e \in {100, 68, 119, 87, 115, 83} THEN [ok |-> TRUE, it |-> ShItem(e), sh |-> TRUE, i |-> i + 2]
        ELSE IF e = 98 THEN [ok |-> TRUE, it |-> Rng(8, 8), sh |-> FALSE, i |-> i + 2]
        ELSE IF e = 45 THEN [ok |-> TRUE, it |-> Rng(45, 45), sh |-> FALSE, i |-> i + 2]
-       ELSE IF annexB /\ e = 99 THEN [ok |-> TRUE, it |-> Rng(92, 92), sh |-> FALSE, i |-> i + 1]   \* \c not followed by a control letter: the backslash itself
-       ELSE IF annexB /\ IsDigitUnit(e) THEN [ok |-> TRUE, it |-> Rng(0, 0), sh |-> FALSE, i |-> DigitsEnd(p, i + 1)]  \* legacy octal (value not judged)
-       ELSE LET ce == CharEscape(p, i + 1, annexB, TRUE)
+       ELSE IF IsB(md) /\ e = 99 THEN [ok |-> TRUE, it |-> Rng(92, 92), sh |-> FALSE, i |-> i + 1]   \* \c not followed by a control letter: the backslash itself
+       ELSE IF IsB(md) /\ IsDigitUnit(e) THEN [ok |-> TRUE, it |-> Rng(0, 0), sh |-> FALSE, i |-> DigitsEnd(p, i + 1)]  \* legacy octal (value not judged)
+       ELSE LET ce == CharEscape(p, i + 1, md, TRUE)
             IN IF ce.ok THEN [ok |-> TRUE, it |-> Rng(ce.c, ce.c), sh |-> FALSE, i |-> ce.i] ELSE bad
 RECURSIVE ClassItems(_, _, _, _)       \* after "[" and optional "^": -> [ok, items, i (after "]")]
-ClassItems(p, i, annexB, acc) ==
+ClassItems(p, i, md, acc) ==
   IF At(p, i) = -1 THEN [ok |-> FALSE, items |-> <<>>, i |-> 0]
   ELSE IF At(p, i) = 93 THEN [ok |-> TRUE, items |-> acc, i |-> i + 1]
-  ELSE LET a1 == ClassAtom(p, i, annexB) IN
+  ELSE LET a1 == ClassAtom(p, i, md) IN
        IF ~a1.ok THEN [ok |-> FALSE, items |-> <<>>, i |-> 0]
        ELSE IF At(p, a1.i) = 45 /\ At(p, a1.i + 1) \notin {93, -1}
-       THEN LET a2 == ClassAtom(p, a1.i + 1, annexB) IN
+       THEN LET a2 == ClassAtom(p, a1.i + 1, md) IN
             IF ~a2.ok THEN [ok |-> FALSE, items |-> <<>>, i |-> 0]
             ELSE IF a1.sh \/ a2.sh
-                 THEN (IF annexB THEN ClassItems(p, a2.i, annexB, acc \o <<a1.it, Rng(45, 45), a2.it>>)
+                 THEN (IF IsB(md) THEN ClassItems(p, a2.i, md, acc \o <<a1.it, Rng(45, 45), a2.it>>)
                        ELSE [ok |-> FALSE, items |-> <<>>, i |-> 0])
-            ELSE IF a1.it.lo > a2.it.lo THEN [ok |-> FALSE, items |-> <<>>, i |-> 0]            \* range out of order
-            ELSE ClassItems(p, a2.i, annexB, Append(acc, Rng(a1.it.lo, a2.it.lo)))
-       ELSE ClassItems(p, a1.i, annexB, Append(acc, a1.it))
+            ELSE IF a1.it.lo > a2.it.lo /\ "rangeOrder" \notin md THEN [ok |-> FALSE, items |-> <<>>, i |-> 0]            \* range out of order
+            ELSE ClassItems(p, a2.i, md, Append(acc, Rng(a1.it.lo, a2.it.lo)))
+       ELSE ClassItems(p, a1.i, md, Append(acc, a1.it))
 
 RECURSIVE PDisj(_, _, _, _, _), PAlt(_, _, _, _, _, _), PTerm(_, _, _, _, _)
 MkCat(ts) == IF ts = <<>> THEN Eps ELSE SX!FoldLeft(LAMBDA acc, k : Cat(ts[Len(ts) - k], acc), ts[Len(ts)], [k \in 1..(Len(ts) - 1) |-> k])
 \* Quantifier after an atom ending at i (atom = r)
-WithQuant(p, r, annexB) ==
+WithQuant(p, r, md) ==
   LET c == At(p, r.i)
       br == Brace(p, r.i)
       q == IF c = 42 THEN [ok |-> TRUE, min |-> 0, max |-> -1, i |-> r.i + 1, big |-> FALSE]
@@ -391,62 +392,65 @@ WithQuant(p, r, annexB) ==
            ELSE IF c = 63 THEN [ok |-> TRUE, min |-> 0, max |-> 1, i |-> r.i + 1, big |-> FALSE]
            ELSE br
   IN IF ~q.ok THEN r
-     ELSE IF q.max # -1 /\ q.max < q.min /\ ~q.big THEN PFail                       \* numbers out of order
+     ELSE IF q.max # -1 /\ q.max < q.min /\ ~q.big /\ "quantOrder" \notin md THEN PFail                       \* numbers out of order
      ELSE LET lazy == At(p, q.i) = 63
           IN POk(IF lazy THEN q.i + 1 ELSE q.i, Rep(r.a, q.min, q.max, ~lazy), r.ng, r.mb)
-Group(p, i, ng, mb, annexB, mk(_), quant) ==          \* body at i, then ")"
-  LET b == PDisj(p, i, ng, mb, annexB) IN
+Group(p, i, ng, mb, md, mk(_), quant) ==          \* body at i, then ")"
+  LET b == PDisj(p, i, ng, mb, md) IN
   IF ~b.ok \/ At(p, b.i) # 41 THEN PFail
-  ELSE LET r == POk(b.i + 1, mk(b.a), b.ng, b.mb) IN IF quant THEN WithQuant(p, r, annexB) ELSE r
-PTerm(p, i, ng, mb, annexB) ==
+  ELSE LET r == POk(b.i + 1, mk(b.a), b.ng, b.mb) IN IF quant THEN WithQuant(p, r, md) ELSE r
+PTerm(p, i, ng, mb, md) ==
   LET c == At(p, i) IN
   CASE c = 94 -> POk(i + 1, Bol, ng, mb)
     [] c = 36 -> POk(i + 1, Eol, ng, mb)
-    [] c = 46 -> WithQuant(p, POk(i + 1, AnyC, ng, mb), annexB)
+    [] c = 46 -> WithQuant(p, POk(i + 1, AnyC, ng, mb), md)
     [] c \in {42, 43, 63, 41, 124, -1} -> PFail                                   \* nothing to repeat / not a term
-    [] c = 123 -> IF annexB /\ ~Brace(p, i).ok THEN WithQuant(p, POk(i + 1, Chr(c), ng, mb), annexB) ELSE PFail
-    [] c \in {125, 93} -> IF annexB THEN WithQuant(p, POk(i + 1, Chr(c), ng, mb), annexB) ELSE PFail
+    [] c = 123 -> IF IsB(md) /\ ~Brace(p, i).ok THEN WithQuant(p, POk(i + 1, Chr(c), ng, mb), md) ELSE PFail
+    [] c \in {125, 93} -> IF IsB(md) THEN WithQuant(p, POk(i + 1, Chr(c), ng, mb), md) ELSE PFail
     [] c = 91 -> LET neg == At(p, i + 1) = 94
-                     ci == ClassItems(p, IF neg THEN i + 2 ELSE i + 1, annexB, <<>>)
-                 IN IF ci.ok THEN WithQuant(p, POk(ci.i, Cls(neg, ci.items), ng, mb), annexB) ELSE PFail
+                     ci == ClassItems(p, IF neg THEN i + 2 ELSE i + 1, md, <<>>)
+                 IN IF ci.ok THEN WithQuant(p, POk(ci.i, Cls(neg, ci.items), ng, mb), md) ELSE PFail
     [] c = 40 ->
-         IF At(p, i + 1) # 63 THEN Group(p, i + 1, ng + 1, mb, annexB, LAMBDA b : Grp(ng + 1, b), TRUE)
+         IF At(p, i + 1) # 63 THEN Group(p, i + 1, ng + 1, mb, md, LAMBDA b : Grp(ng + 1, b), TRUE)
          ELSE LET k == At(p, i + 2) IN
-              IF k = 58 THEN Group(p, i + 3, ng, mb, annexB, LAMBDA b : Ncg(b), TRUE)
-              ELSE IF k = 61 THEN Group(p, i + 3, ng, mb, annexB, LAMBDA b : La(FALSE, b), annexB)      \* B.1.2: lookaheads are quantifiable
-              ELSE IF k = 33 THEN Group(p, i + 3, ng, mb, annexB, LAMBDA b : La(TRUE, b), annexB)
-              ELSE IF k = 60 /\ At(p, i + 3) = 61 THEN Group(p, i + 4, ng, mb, annexB, LAMBDA b : Lb(FALSE, b), FALSE)
-              ELSE IF k = 60 /\ At(p, i + 3) = 33 THEN Group(p, i + 4, ng, mb, annexB, LAMBDA b : Lb(TRUE, b), FALSE)
+              IF k = 58 THEN Group(p, i + 3, ng, mb, md, LAMBDA b : Ncg(b), TRUE)
+              ELSE IF k = 61 THEN Group(p, i + 3, ng, mb, md, LAMBDA b : La(FALSE, b), IsB(md))      \* B.1.2: lookaheads are quantifiable
+              ELSE IF k = 33 THEN Group(p, i + 3, ng, mb, md, LAMBDA b : La(TRUE, b), IsB(md))
+              ELSE IF k = 60 /\ At(p, i + 3) = 61 THEN Group(p, i + 4, ng, mb, md, LAMBDA b : Lb(FALSE, b), "lbQuant" \in md)
+              ELSE IF k = 60 /\ At(p, i + 3) = 33 THEN Group(p, i + 4, ng, mb, md, LAMBDA b : Lb(TRUE, b), "lbQuant" \in md)
               ELSE PFail                                                              \* incl. named groups: not in the supported syntax
     [] c = 92 ->
          LET e == At(p, i + 1) IN
          IF e = 98 THEN POk(i + 2, Wb, ng, mb)
          ELSE IF e = 66 THEN POk(i + 2, Nwb, ng, mb)
-         ELSE IF e \in {100, 68, 119, 87, 115, 83} THEN WithQuant(p, POk(i + 2, Sh(e), ng, mb), annexB)
+         ELSE IF e \in {100, 68, 119, 87, 115, 83} THEN WithQuant(p, POk(i + 2, Sh(e), ng, mb), md)
          ELSE IF e >= 49 /\ e <= 57
               THEN LET j == DigitsEnd(p, i + 1)
                        n == IF j - (i + 1) > 9 THEN 1000000 ELSE DigitsVal(SubSeq(p, i + 1, j - 1))
-                   IN WithQuant(p, POk(j, Bref(n), ng, Max(mb, n)), annexB)
-         ELSE IF annexB /\ e = 99 /\ ~IsAsciiLetter(At(p, i + 2)) THEN WithQuant(p, POk(i + 1, Chr(92), ng, mb), annexB)
-         ELSE IF annexB /\ e = 48 THEN WithQuant(p, POk(DigitsEnd(p, i + 1), Chr(0), ng, mb), annexB)  \* legacy octal (value not judged)
-         ELSE LET ce == CharEscape(p, i + 1, annexB, FALSE)
-              IN IF ce.ok THEN WithQuant(p, POk(ce.i, Chr(ce.c), ng, mb), annexB) ELSE PFail
-    [] OTHER -> WithQuant(p, POk(i + 1, Chr(c), ng, mb), annexB)
-PAlt(p, i, ng, mb, annexB, acc) ==
+                   IN WithQuant(p, POk(j, Bref(n), ng, Max(mb, n)), md)
+         ELSE IF IsB(md) /\ e = 99 /\ ~IsAsciiLetter(At(p, i + 2)) THEN WithQuant(p, POk(i + 1, Chr(92), ng, mb), md)
+         ELSE IF IsB(md) /\ e = 48 THEN WithQuant(p, POk(DigitsEnd(p, i + 1), Chr(0), ng, mb), md)  \* legacy octal (value not judged)
+         ELSE LET ce == CharEscape(p, i + 1, md, FALSE)
+              IN IF ce.ok THEN WithQuant(p, POk(ce.i, Chr(ce.c), ng, mb), md) ELSE PFail
+    [] OTHER -> WithQuant(p, POk(i + 1, Chr(c), ng, mb), md)
+PAlt(p, i, ng, mb, md, acc) ==
   IF At(p, i) \in {-1, 124, 41} THEN POk(i, MkCat(acc), ng, mb)
-  ELSE LET t == PTerm(p, i, ng, mb, annexB) IN IF ~t.ok THEN PFail ELSE PAlt(p, t.i, t.ng, t.mb, annexB, Append(acc, t.a))
-PDisj(p, i, ng, mb, annexB) ==
-  LET l == PAlt(p, i, ng, mb, annexB, <<>>) IN
+  ELSE LET t == PTerm(p, i, ng, mb, md) IN IF ~t.ok THEN PFail ELSE PAlt(p, t.i, t.ng, t.mb, md, Append(acc, t.a))
+PDisj(p, i, ng, mb, md) ==
+  LET l == PAlt(p, i, ng, mb, md, <<>>) IN
   IF ~l.ok THEN PFail
   ELSE IF At(p, l.i) # 124 THEN l
-  ELSE LET r == PDisj(p, l.i + 1, l.ng, l.mb, annexB) IN IF ~r.ok THEN PFail ELSE POk(r.i, Alt(l.a, r.a), r.ng, r.mb)
+  ELSE LET r == PDisj(p, l.i + 1, l.ng, l.mb, md) IN IF ~r.ok THEN PFail ELSE POk(r.i, Alt(l.a, r.a), r.ng, r.mb)
 
-ParseMode(p, annexB) ==
-  LET r == PDisj(p, 1, 0, 0, annexB) IN
+\* md: set of options.  "B": the Annex B grammar;  "rangeOrder" / "quantOrder" / "lbQuant" / "fwdRef": one early error or
+\* restriction relaxed (used by C10 to name the rule an engine gets wrong)
+ParseOpt(p, md) ==
+  LET r == PDisj(p, 1, 0, 0, md) IN
   IF ~r.ok \/ r.i # Len(p) + 1 THEN PFail
-  ELSE IF r.mb > r.ng THEN (IF annexB THEN r ELSE PFail)       \* \n beyond the groups: legacy octal in B.1.2, else an early error
+  ELSE IF r.mb > r.ng THEN (IF IsB(md) THEN r ELSE PFail)       \* \n beyond the groups: legacy octal in B.1.2, else an early error
   ELSE r
-Parse(p) == ParseMode(p, FALSE)
+ParseMode(p, annexB) == ParseOpt(p, IF annexB THEN {"B"} ELSE {})
+Parse(p) == ParseOpt(p, {})
 \* "accept": in the grammar of 22.2.1;  "reject": not even in the B.1.2 grammar;  "outside": implementation-defined
 Classify(p) == IF ParseMode(p, FALSE).ok THEN "accept" ELSE IF ParseMode(p, TRUE).ok THEN "outside" ELSE "reject"
 
